@@ -127,11 +127,17 @@ def run_roundtrip(sc):
                     # array-likes that are no numpy arrays (what a model callback may well return), data that already
                     # carries its time axis, a forced copy
                     (data.tolist(), 1.0), (tuple(map(tuple, data.tolist())) if data.ndim == 2 else tuple(data.tolist()), 1.0),
-                    (data.copy()[np.newaxis, ...], 1.0), ((data.copy(), "force_copy"), 1.0)]
+                    (data.copy()[np.newaxis, ...], 1.0), ((data.copy(), "force_copy"), 1.0),
+                    ((np.ma.array(data.copy(), mask=mask, shrink=False), "force_copy"), 1.0),
+                    ((tools.UNITS.Quantity(data.copy(), "m"), "force_copy"), 1.0),
+                    ((tools.UNITS.Quantity(data.copy(), "km"), "force_copy"), 1000.0)]
         for payload, fac in payloads:
             try:
                 if isinstance(payload, tuple) and len(payload) == 2 and isinstance(payload[1], str):
                     p = tools.prepare(payload[0], info, force_copy=True)
+                    raw = payload[0].magnitude if hasattr(payload[0], "magnitude") else payload[0]
+                    if np.shares_memory(np.ma.getdata(p.magnitude), np.ma.getdata(raw)):
+                        v("mask-prepare", "force_copy", f"{sc}: prepare(force_copy=True) handed back the caller's own memory")
                 else:
                     p = tools.prepare(payload, info)
             except Exception as e:
